@@ -157,6 +157,27 @@ def instances(ck):
             rec2["out"] = {"terms": [], "op": ">=", "deg": 0}
             rec2["outcome"] = exc_name(e)
         recs.append(rec2)
+        # the same constraint object used again (normalised, then added to one formula, then to another):
+        # every use must mean the constraint as it was written
+        if m % 2 == 0:
+            shared = [tuple(t) for t in terms] + [op, deg]
+            for use in ("n2", "a2", "a3"):
+                rec3 = {"id": "normre-%d-%s" % (m, use), "kind": "norm", "nvars": 3,
+                        "cons": {"terms": terms, "op": op, "deg": deg}}
+                try:
+                    if use == "n2":
+                        normalize_opb(shared)
+                        out = normalize_opb(shared)
+                        rec3["out"] = {"terms": [[int(c), int(l)] for c, l in out[:-2]], "op": str(out[-2]), "deg": int(out[-1])}
+                    else:
+                        G = OPB()
+                        G.add_constraints_from([shared, shared]) if use == "a3" else G.add_constraint(shared)
+                        rec3["out"] = project.constraints_of(G)[-1]
+                    rec3["outcome"] = "ok"
+                except Exception as e:
+                    rec3["out"] = {"terms": [], "op": ">=", "deg": 0}
+                    rec3["outcome"] = exc_name(e)
+                recs.append(rec3)
     # --- mappings ------------------------------------------------------------
     forces_all = ["complete", "functional", "injective", "surjective", "nondecreasing"]
     fsets = [[f] for f in forces_all] + [["complete", "functional"], ["complete", "injective", "functional"],
